@@ -36,8 +36,31 @@ def between : List Event → Event → Event → List Event
 
 /-! ### C03: predicate writes of `buf->cv` are made under `syncMutex` and notified under the same lock -/
 def notifyOnData : Bool :=
-  followedBy (fn "onData") ("write", "hasData=true", "syncMutex") ("notify_one", "buf.cv", "syncMutex") ||
-  followedBy (fn "onData") ("write", "hasData=true", "syncMutex") ("notify_all", "buf.cv", "syncMutex")
+  followedBy (fn "onData") ("write", "hasData=!bufIt->second->data.empty()", "syncMutex") ("notify_one", "buf.cv", "syncMutex") ||
+  followedBy (fn "onData") ("write", "hasData=!bufIt->second->data.empty()", "syncMutex") ("notify_all", "buf.cv", "syncMutex")
+/-- INV-1 at the source: the handler computes `hasData` from the BUFFER after the append (never from the arriving chunk, never a
+constant), so a zero-length chunk cannot mark an empty buffer readable nor hide buffered bytes (FC03a) -/
+def hasDataMirrorsBuffer : Bool :=
+  followedBy (fn "onData") ("append", "data", "syncMutex") ("write", "hasData=!bufIt->second->data.empty()", "syncMutex") &&
+  (fn "onData").all (fun e => e.1 != "write" || ["overflow=true", "hasData=!bufIt->second->data.empty()"].contains e.2.1)
+/-- `receiveSync` keys its drain on the buffer being non-empty (not on a flag), copies `min(len, size)` and recomputes the flag
+from the buffer -/
+def drainKeyedOnBuffer : Bool :=
+  followedBy (fn "receiveSync") ("cmp", "data-nonempty", "syncMutex") ("cmp", "min(len,size)", "syncMutex") &&
+  followedBy (fn "receiveSync") ("consume", "data", "syncMutex") ("write", "hasData=!buf->data.empty()", "syncMutex") &&
+  count (fn "receiveSync") (fun e => e == ("cmp", "data-nonempty", "syncMutex")) == 1
+/-- the flush loop's critical section either TAKES the buffered bytes (mode unchanged) or, only on a pass that found the buffer
+empty, switches the mode to Async and leaves the loop: the mode switch is never in the section that took bytes (C03-b) -/
+def flushSwitchesModeOnlyOnEmptyPass : Bool :=
+  let f := fn "setReadMode"
+  followedBy f ("cmp", "data-nonempty", "syncMutex") ("take", "data", "syncMutex") &&
+  followedBy f ("take", "data", "syncMutex") ("write", "hasData=false", "syncMutex") &&
+  followedBy f ("write", "hasData=false", "syncMutex") ("else", "", "syncMutex") &&
+  followedBy f ("else", "", "syncMutex") ("write", "readModes=Async", "syncMutex") &&
+  followedBy f ("write", "readModes=Async", "syncMutex") ("break", "", "syncMutex") &&
+  followedBy f ("break", "", "syncMutex") ("unlock", "syncMutex", "syncMutex") &&
+  count f (fun e => e == ("take", "data", "syncMutex")) == 1 &&
+  count f (fun e => e == ("write", "readModes=Async", "syncMutex")) == 2
 def notifyOnOverflow : Bool :=
   followedBy (fn "onData") ("write", "overflow=true", "syncMutex") ("notify_all", "buf.cv", "syncMutex")
 def notifyOnClose : Bool :=
